@@ -14,7 +14,8 @@
    method resolution order (MRO)").
 *)
 EXTENDS Naturals, Sequences, FiniteSets, TLC, Json
-CONSTANT N              \* max number of classes
+CONSTANTS N,             \* max number of classes
+          UseBaseList    \* TRUE: the list of direct bases takes part in the merge (FALSE: specification-level mutant)
 VARIABLES bases
 vars == <<bases>>
 
@@ -41,7 +42,7 @@ Mro(b, c) ==
   LET bs == b[c]
       lins == [i \in 1..Len(bs) |-> Mro(b, bs[i])]
   IN IF \E i \in 1..Len(bs) : lins[i] = Fail THEN Fail
-     ELSE LET m == Merge(lins \o <<bs>>) IN IF m = Fail THEN Fail ELSE <<c>> \o m
+     ELSE LET m == Merge(IF UseBaseList THEN lins \o <<bs>> ELSE lins) IN IF m = Fail THEN Fail ELSE <<c>> \o m
 
 Last == Len(bases)
 LastMro == Mro(bases, Last)
@@ -69,6 +70,8 @@ LocalPrecedence == (Last > 0 /\ LastMro # Fail) => IsSubseq(bases[Last], LastMro
 \* and keeps the order of every base's own linearisation (monotonicity)
 Monotone == (Last > 0 /\ LastMro # Fail) =>
                \A i \in 1..Len(bases[Last]) : IsSubseq(Mro(bases, bases[Last][i]), LastMro)
+\* the first base follows the class immediately
+FirstBaseNext == (Last > 0 /\ LastMro # Fail /\ Len(bases[Last]) > 0) => LastMro[2] = bases[Last][1]
 \* single inheritance never fails
 ChainsLinearise == (Last > 0 /\ \A c \in 1..Last : Len(bases[c]) <= 1) => LastMro # Fail
 
